@@ -48,7 +48,7 @@ pub trait XmlSource<'r, B> {
     /// Removes UTF-8 BOM if it is present
     fn remove_utf8_bom(&mut self) -> (r: io::Result<()>)
         ensures
-            (r is Err) == (final(self).faults() > old(self).faults()), final(self).faults() >= old(self).faults(),
+            (r is Err) == (final(self).faults() > old(self).faults()), final(self).faults() >= old(self).faults(), final(self).remaining().len() <= old(self).remaining().len(),
             match r {
                 // the sniff may see only the first piece of the input: a BOM is either removed or left in place
                 Ok(()) => final(self).remaining() == old(self).remaining() || final(self).remaining() == strip_bom(old(self).remaining()),
@@ -66,7 +66,7 @@ pub trait XmlSource<'r, B> {
     fn read_text(&mut self, buf: B, position: &mut u64) -> (r: ReadTextResult<'r, B>)
         requires *old(position) + old(self).remaining().len() <= u64::MAX,
         ensures
-            (r is Err) == (final(self).faults() > old(self).faults()), final(self).faults() >= old(self).faults(),
+            (r is Err) == (final(self).faults() > old(self).faults()), final(self).faults() >= old(self).faults(), final(self).remaining().len() <= old(self).remaining().len(),
             ({
                 let rem = old(self).remaining();
                 match r {
@@ -119,7 +119,7 @@ pub trait XmlSource<'r, B> {
         P: Parser,
         requires *old(position) + old(self).remaining().len() <= u64::MAX,
         ensures
-            (r matches Err(Error::Io(_))) == (final(self).faults() > old(self).faults()), final(self).faults() >= old(self).faults(),
+            (r matches Err(Error::Io(_))) == (final(self).faults() > old(self).faults()), final(self).faults() >= old(self).faults(), final(self).remaining().len() <= old(self).remaining().len(),
             ({
                 let rem = old(self).remaining();
                 match r {
@@ -169,7 +169,7 @@ pub trait XmlSource<'r, B> {
             // the caller has just peeked the '!'
             old(self).remaining().len() > 0 && old(self).remaining()[0] == 0x21 && old(self).buffered() >= 1,
         ensures
-            (r matches Err(Error::Io(_))) == (final(self).faults() > old(self).faults()), final(self).faults() >= old(self).faults(),
+            (r matches Err(Error::Io(_))) == (final(self).faults() > old(self).faults()), final(self).faults() >= old(self).faults(), final(self).remaining().len() <= old(self).remaining().len(),
             ({
                 let rem = old(self).remaining();
                 match r {
@@ -205,7 +205,7 @@ pub trait XmlSource<'r, B> {
     fn skip_whitespace(&mut self, position: &mut u64) -> (r: io::Result<()>)
         requires *old(position) + old(self).remaining().len() <= u64::MAX,
         ensures
-            (r is Err) == (final(self).faults() > old(self).faults()), final(self).faults() >= old(self).faults(),
+            (r is Err) == (final(self).faults() > old(self).faults()), final(self).faults() >= old(self).faults(), final(self).remaining().len() <= old(self).remaining().len(),
             ({
                 let rem = old(self).remaining();
                 &&& is_suffix_of(final(self).remaining(), rem)
@@ -217,7 +217,7 @@ pub trait XmlSource<'r, B> {
     /// will still include it. On EOF, return `None`.
     fn peek_one(&mut self) -> (r: io::Result<Option<u8>>)
         ensures
-            (r is Err) == (final(self).faults() > old(self).faults()), final(self).faults() >= old(self).faults(),
+            (r is Err) == (final(self).faults() > old(self).faults()), final(self).faults() >= old(self).faults(), final(self).remaining().len() <= old(self).remaining().len(),
             final(self).remaining() == old(self).remaining(),
             match r {
                 Ok(Some(b)) => old(self).remaining().len() > 0 && b == old(self).remaining()[0] && final(self).buffered() >= 1,
